@@ -29,7 +29,8 @@ MkInput(ptr, vis, marks, emarks, ditem, dlines) ==
                      (* `_raw`: a declared function whose name starts with an underscore keeps its declared visibility in the table *)
                      !.vft = Vft(3, <<Func("vf", vis.vf, dd("vfunc"), <<ArgM>>, TNone, None, None, ""),
                                       Func("_raw", vis.vf, <<>>, <<ArgM>>, TNone, None, None, "")>>)]
-      D == TypeDef("D", "pub", <<Field("t", "pub", <<>>, TNm("T"), None, TRUE),
+      (* the base field itself may be private: the inherited copies of T's public functions are public all the same *)
+      D == TypeDef("D", "pub", <<Field("t", vis.b, <<>>, TNm("T"), None, TRUE),
                                  Field("x", "pub", <<>>, TNm("u32"), None, FALSE)>>)
       DV == TypeDef("DV", "pub", <<Field("v", "pub", <<>>, TNm("V"), None, TRUE),
                                    Field("k", "pub", <<>>, TCPtr(TNm("u8")), None, FALSE)>>)
@@ -52,8 +53,8 @@ MkInput(ptr, vis, marks, emarks, ditem, dlines) ==
                      !.evals = <<ExtVal("gv", vis.g, TNm("u32"), 8192)>>]
   IN [ptr |-> ptr, mods |-> <<m>>]
 
-AllVis == [t : VisSet, f : VisSet, h : VisSet, vf : VisSet, e : VisSet, g : VisSet, u : VisSet]
-DefaultVis == [t |-> "pub", f |-> "pub", h |-> "pub", vf |-> "pub", e |-> "pub", g |-> "pub", u |-> "priv"]
+AllVis == [t : VisSet, f : VisSet, h : VisSet, vf : VisSet, e : VisSet, g : VisSet, u : VisSet, b : VisSet]
+DefaultVis == [t |-> "pub", f |-> "pub", h |-> "pub", vf |-> "pub", e |-> "pub", g |-> "pub", u |-> "priv", b |-> "pub"]
 AllMarks == [copy : BOOLEAN, clone : BOOLEAN, dflt : BOOLEAN, packed : BOOLEAN]
 NoMarks == [copy |-> FALSE, clone |-> FALSE, dflt |-> FALSE, packed |-> FALSE]
 AllEMarks == [copy : BOOLEAN, clone : BOOLEAN, dflt : BOOLEAN]
@@ -101,6 +102,7 @@ P_C17 ==
      /\ \A i \in DOMAIN t.fields : t.fields[i].name \notin {"f", "g"} => t.fields[i].vis = "priv"   \* padding
      /\ FieldNamed(v, "vftable").vis = "priv"
      /\ MethodNamed(t, "h").vis = h.vis
+     /\ (h.vis = "pub" => MethodNamed(d, "h").vis = "pub") /\ FieldNamed(d, "t").vis = DefNamed("D").fields[1].vis
      /\ MethodNamed(v, "vf").vis = vf.vis
      /\ FieldNamed(vt, "vf").vis = vf.vis /\ FieldNamed(vt, "_vfunc_2").vis = "priv"
      /\ File.evals[1].vis = M.evals[1].vis
